@@ -19,10 +19,49 @@ namespace
     worlds::Opt o;
     o.spherical = kind == 2;
     o.cross_section = kind != 3;
-    o.force_surface = kind == 1;
+    o.force_surface = kind == 1 || kind == 4;
+    o.partial = kind == 4;
     return o;
   }
-  const char *KINDN[] = {"cartesian+cross-section", "cartesian+cross-section+forced-surface-T", "spherical+cross-section", "cartesian, no cross section"};
+  const unsigned NKINDS = 5;
+  const char *KINDN[] = {"cartesian+cross-section", "cartesian+cross-section+forced-surface-T", "spherical+cross-section", "cartesian, no cross section",
+                         "cartesian+cross-section+forced-surface-T, features only partly replacing the incoming values (add operations, slab/fault models limited to part of the thickness)"
+                        };
+  const unsigned KINDS_2D[] = {0, 1, 2, 4};   // the worlds with a cross section
+
+  // probes beyond the shared lattice: just above / at / just below the reference surface (negative depths are what an application with
+  // topography or a deformed mesh asks for), and dense lines through the fault and the slab, where part of the thickness keeps incoming values
+  std::vector<worlds::Probe> extra3(bool spherical)
+  {
+    const double s = spherical ? 1.0 : 1e5;
+    std::vector<worlds::Probe> out;
+    for (double x : {-4.5, -2.0, 0.5, 2.5, 7.0})
+      for (double y : {-1.2, 2.0})
+        for (double d : {-5.0, -1e-9, -1e-15, 1e-16, 1e-9})
+          out.push_back({x*s, y*s, d});
+    for (double x : {-3.5, -3.0, -2.5, -2.0, -1.5})
+      for (double off : {-0.05, -0.15, -0.25, -0.35})
+        for (double d : {1e4, 3e4, 6e4})
+          out.push_back({x*s, (-1.0 - (x + 4.0)/6.0 + off)*s, d});
+    for (double x : {1.3, 1.6, 1.9, 2.2, 2.6, 3.0})
+      for (double y : {-2.0, 1.0})
+        for (double d : {3e4, 6e4, 1e5, 1.5e5, 2e5})
+          out.push_back({x*s, y*s, d});
+    return out;
+  }
+  std::vector<worlds::Probe2> extra2(bool spherical)
+  {
+    std::vector<worlds::Probe2> out;
+    auto add = [&](double a, double d)
+    {
+      if (!spherical) out.push_back({a*1e5, CART_TOP - d, d});
+      else { const double r = R_EARTH - d, ang = a * PI / 180.0; out.push_back({r*std::cos(ang), r*std::sin(ang), d}); }
+    };
+    for (double a : {0.0, 2.3, 7.2}) for (double d : {-5.0, -1e-9, 1e-16}) add(a, d);
+    for (double a : {3.0, 3.1, 3.2, 3.3, 3.4}) for (double d : {2e4, 4e4, 6e4, 8e4}) add(a, d);
+    for (double a : {7.5, 8.0, 8.5, 9.0}) for (double d : {4e4, 8e4, 1.2e5, 1.6e5}) add(a, d);
+    return out;
+  }
 
   struct Loaded
   {
@@ -43,9 +82,15 @@ namespace
     const worlds::Opt o = opt_for(kind);
     L.text = worlds::rich(o);
     L.w = make_world(L.text);
-    for (auto &pr : worlds::lattice(o.spherical)) { L.p3.push_back(query_point(o.spherical, pr.x, pr.y, pr.depth)); L.d3.push_back(pr.depth); }
+    auto l3 = worlds::lattice(o.spherical);
+    for (auto &pr : extra3(o.spherical)) l3.push_back(pr);
+    for (auto &pr : l3) { L.p3.push_back(query_point(o.spherical, pr.x, pr.y, pr.depth)); L.d3.push_back(pr.depth); }
     if (o.cross_section)
-      for (auto &pr : worlds::lattice2(o.spherical)) { L.p2.push_back({{pr.x, pr.z}}); L.d2.push_back(pr.depth); }
+      {
+        auto l2 = worlds::lattice2(o.spherical);
+        for (auto &pr : extra2(o.spherical)) l2.push_back(pr);
+        for (auto &pr : l2) { L.p2.push_back({{pr.x, pr.z}}); L.d2.push_back(pr.depth); }
+      }
     L.alone3.resize(L.p3.size());
     for (size_t i = 0; i < L.p3.size(); ++i)
       for (auto &a : ATOMS) L.alone3[i].push_back(L.w->properties(L.p3[i], L.d3[i], {a}));
@@ -78,7 +123,7 @@ namespace
   {
     static const int c_blocks = Ctx::counter_id("blocks_compared"), c_diff = Ctx::counter_id("points_where_blocks_differ_from_background");
     const uint64_t nl = n_lists(maxlen);
-    const unsigned kind = static_cast<unsigned>(idx / nl);
+    const unsigned kind = twod ? KINDS_2D[idx / nl] : static_cast<unsigned>(idx / nl);
     const std::vector<unsigned> lst = decode_list(idx % nl, maxlen);
     Loaded &L = load(kind);
     Request req;
@@ -117,7 +162,7 @@ namespace
             ctx.count(c_blocks);
             if (std::memcmp(&out[slot], alone.data(), n*sizeof(double)) != 0)
               ctx.violation(std::string("C01/batch/") + (twod ? "2d" : "3d") + "/block=" + ATOMN[lst[b]] + (multi_grains_before ? "/after-grains-k!=1" : "") +
-                            (kind == 1 && depth == 0 ? "/forced-surface" : ""),
+                            ((kind == 1 || kind == 4) && depth == 0 ? "/forced-surface" : "") + (depth < 0 ? "/negative-depth" : ""),
                             detail("block differs from the stand-alone query", b));
             if (req[b][0] == 3 && req[b][2] != 1) multi_grains_before = true;
             slot += n;
@@ -133,7 +178,7 @@ namespace
 
   void run_entry(uint64_t idx, Ctx &ctx)
   {
-    const unsigned kind = static_cast<unsigned>(idx);
+    const unsigned kind = KINDS_2D[idx];
     Loaded &L = load(kind);
     auto bad = [&](const std::string &fn, size_t ip, bool twod)
     {
@@ -394,7 +439,7 @@ int main(int argc, char **argv)
   Spec spec;
   spec.property = "C01";
   spec.level = "model_checking";
-  spec.rule = "batching suites: every request list of length <= L over an 8-atom alphabet x 4 rich worlds x all lattice points, each block compared bit-for-bit with the stand-alone "
+  spec.rule = "batching suites: every request list of length <= L over an 8-atom alphabet x 5 rich worlds x all probe points (lattice, depths just above/at/below the surface, lines through the fault and the slab), each block compared bit-for-bit with the stand-alone "
               "query through the same interface (non-trivial: list length >= 2 and at least one point inside a feature); history suites: every operation sequence of length <= D over 13 "
               "operations (queries at 4 pairs of adjacent doubles straddling feature boundaries, 2-D batched query, grains entry point, construct/query/destroy a second, spherical world) "
               "each replayed in a freshly exec'd process, canonical state = bit pattern of 10 probe answers + serialised RNG engine + W2 alive (non-trivial: every enabled sequence; distinct by construction)";
@@ -415,13 +460,13 @@ int main(int argc, char **argv)
     const bool th = tier == "thorough";
     const unsigned L = th ? 4 : 3, D = th ? 4 : 3;
     std::vector<Suite> s;
-    Suite a; a.name = "batch3d"; a.n = 4*n_lists(L); a.run = [L](uint64_t i, Ctx &c) { run_batch(false, L, i, c); };
-    a.bound = "all request lists of length 1.." + std::to_string(L) + " over 8 atoms x 4 worlds x 240 points, 3-D interface";
+    Suite a; a.name = "batch3d"; a.n = NKINDS*n_lists(L); a.run = [L](uint64_t i, Ctx &c) { run_batch(false, L, i, c); };
+    a.bound = "all request lists of length 1.." + std::to_string(L) + " over 8 atoms x 5 worlds x 410 points (lattice + points above/at/below the surface + lines through fault and slab), 3-D interface";
     s.push_back(a);
-    Suite b; b.name = "batch2d"; b.n = 3*n_lists(L); b.run = [L](uint64_t i, Ctx &c) { run_batch(true, L, i, c); };
-    b.bound = "all request lists of length 1.." + std::to_string(L) + " over 8 atoms x 3 worlds with cross section x 54 points, 2-D interface";
+    Suite b; b.name = "batch2d"; b.n = 4*n_lists(L); b.run = [L](uint64_t i, Ctx &c) { run_batch(true, L, i, c); };
+    b.bound = "all request lists of length 1.." + std::to_string(L) + " over 8 atoms x 4 worlds with cross section x 99 points, 2-D interface";
     s.push_back(b);
-    Suite e; e.name = "entrypoints"; e.n = 3; e.run = run_entry; e.bound = "temperature/composition/grains entry points (2-D and 3-D) vs properties() on 3 worlds x all points";
+    Suite e; e.name = "entrypoints"; e.n = 4; e.run = run_entry; e.bound = "temperature/composition/grains entry points (2-D and 3-D) vs properties() on 4 worlds x all points";
     s.push_back(e);
     { Suite r; r.name = "href"; r.n = 0; r.run = run_href; r.bound = "(helper: history-free answers computed in pristine processes; no cases of its own)"; s.push_back(r); }
     for (unsigned len = 1; len <= D; ++len)
